@@ -72,7 +72,8 @@ def calc_of(w, ti, obj):
     """what the tree's id callback answers for `obj` (harness's own callback table, not the tree)"""
     fn = w.calc_fn(w.calcs[ti]) if ti < len(w.calcs) else None
     try:
-        return hash(obj) if fn is None else fn(w.trees[ti], obj)
+        v = hash(obj) if fn is None else fn(w.trees[ti], obj)
+        return v if isinstance(v, (int, str)) else RAISES      # an unhashable answer is as unusable as a raising hook
     except CallbackFault:
         return RAISES
     except TypeError:
@@ -80,6 +81,8 @@ def calc_of(w, ti, obj):
 
 
 def new_id(w, ti, d, did):
+    if isinstance(did, dict):
+        return RAISES               # an unhashable explicit data_id ({"u": [...]}, see mut.py)
     return did if did is not None else calc_of(w, ti, w.dobj(d))
 
 
